@@ -6,7 +6,7 @@ import DdsModel.Conv
 import DdsModel.ConvSpec
 import DdsModel.Proofs.ConvRange
 namespace Dds.ConvProofs
-open Dds Dds.Conv Dds.Spec Dds.F32
+open Dds Dds.Conv Dds.Spec Dds.CF32 Dds.ConvRange
 set_option maxRecDepth 100000
 
 /-- `impl x` is the code of the ideal `q x` (nearest, tie up) and whether `max * q x` is a tie is
